@@ -30,8 +30,12 @@ def make_frame(rows, ncat, nnum, rng_idx, numvals=None):
     order = []
     for c in range(ncat):
         if c < nnum:
-            data["n%d" % (c + 1)] = pandas.Series(
-                [float((numvals or [])[r][c]) if numvals else float(10 * (c + 1) + r) for r in range(m)], dtype=float)
+            if numvals is None and (m + c) % 2 == 0:
+                # an identifier column: 64-bit integers beyond 2^53 (they have no exact float64 image)
+                data["n%d" % (c + 1)] = pandas.Series([2 ** 53 + 1 + 10 * (c + 1) + 2 * r for r in range(m)], dtype=numpy.int64)
+            else:
+                data["n%d" % (c + 1)] = pandas.Series(
+                    [float((numvals or [])[r][c]) if numvals else float(10 * (c + 1) + r) for r in range(m)], dtype=float)
             order.append("n%d" % (c + 1))
         data["c%d" % (c + 1)] = pandas.Series([_val(rows[r][c], (r + c) % 2) for r in range(m)], dtype=object)
         order.append("c%d" % (c + 1))
@@ -92,6 +96,16 @@ def observe(cats, remove, skip, frame_rows, ncat, nnum, kind="str"):
             tr.transform(A0.copy(deep=True))
         except Exception:
             pass
+    if (len(frame_rows) + len(remove) + ncat) % 4 == 1:
+        # the training frame is a filtered view of a larger table: its columns have pandas' `category` dtype and
+        # DECLARE a category (code 9) that no row of the frame holds.  A category is what rows hold.
+        A = A.copy()
+        for c_, col in enumerate(cols):
+            held = list(dict.fromkeys(v for v in A[col] if v is not None and v == v))
+            extra = _val(9, 0)
+            if extra not in held:
+                A[col] = pandas.Categorical(A[col], categories=held + [extra])
+    Afit = A
     tr.fit(A)
     sch = schema_of(tr, A, nnum)
     out["schema"] = [code_of(s) for s in sch]
